@@ -45,6 +45,16 @@ PUBS = ['p1', 'p2', 'p3']
 MUTS = ['after_write', 'newest', 'batch']
 
 
+def tlc_check(module, cfg, **kw):
+    """design check; a TLC/JVM that did not come up or was killed (loaded machine, rc 143/137) is retried once -
+    if it fails again add_design turns it into Inconclusive, never into a result"""
+    res = core.tlc_check(module, cfg, **kw)
+    if not res['ok'] and not res['violated'] and not res.get('timeout'):
+        core.log('TLC run of %s did not complete (rc=%s), retrying once' % (cfg, res['rc']))
+        res = core.tlc_check(module, cfg, **kw)
+    return res
+
+
 # ------------------------------------------------------------------ commit-log level
 
 def cl_judge(rep, behaviours, trace):
@@ -87,9 +97,9 @@ def cl_stats(trace):
     return ref, acc
 
 
-def run_commitlog(rep, tier, seed, rng):
+def run_commitlog(rep, tier, seed, rng, keepdir):
     thorough = tier == 'thorough'
-    res = core.tlc_check('MC_CommitLog.tla', 'MC_CommitLog_occ_thorough.cfg' if thorough else 'MC_CommitLog_occ.cfg',
+    res = tlc_check('MC_CommitLog.tla', 'MC_CommitLog_occ_thorough.cfg' if thorough else 'MC_CommitLog_occ.cfg',
                          timeout=3000, coverage=thorough)
     rep.add_design('MC_CommitLog_occ', res)
     num, depth = (12000, 16) if thorough else (700, 12)
@@ -100,8 +110,14 @@ def run_commitlog(rep, tier, seed, rng):
         trace = c01.execute(behaviours, d, timeout=1500)
         tr = cl_judge(rep, behaviours, trace)
         ref, acc = cl_stats(trace)
+        keep = os.path.join(keepdir, 'cl-trace.ndjson')
+        with open(keep, 'w') as fh:      # a prefix is enough for the corrupted-trace self-test
+            for i, line in enumerate(open(trace)):
+                if i >= 400:
+                    break
+                fh.write(line)
     nt = [b for b in behaviours if ref.get(b['id']) and acc.get(b['id'])]
-    return {'behaviours': behaviours, 'nontrivial': nt, 'lines': tr['validated'],
+    return {'behaviours': behaviours, 'nontrivial': nt, 'lines': tr['validated'], 'trace': keep,
             'refused': sum(ref.values()), 'accepted': sum(acc.values())}
 
 
@@ -254,8 +270,10 @@ def sv_judge(rep, rounds, trace, confirm=True):
 
 def sv_stats(events):
     st = {'rounds': 0, 'msgs': 0, 'ok': 0, 'refused': 0, 'timeouts': 0, 'nontrivial_ids': [], 'exact_refusals': 0,
-          'races_same_exp': 0}
+          'races_same_exp': 0, 'aborted': 0}
     for e in events:
+        if e['a'] == 'Aborted':
+            st['aborted'] += 1
         if e['a'] != 'Round':
             continue
         st['rounds'] += 1
@@ -267,6 +285,18 @@ def sv_stats(events):
         st['refused'] += len(rej)
         if e['cfg']['occ'] and rej and any(m['exp'] != -1 for m in ok):
             st['nontrivial_ids'].append(e['t'])
+        # information only (the verdict is TLC's): refusals whose window of possible log ends is a single value,
+        # i.e. refusals that C16_RejectJustified decides exactly
+        off = {x['id']: x['off'] for x in e['log']}
+        for i, m in enumerate(e['msgs']):
+            if m['res'] != 'incorrect_offset':
+                continue
+            lo = max([0] + [off[j + 1] + 1 for j, y in enumerate(e['msgs'])
+                            if j + 1 in off and y['res'] == 'ok' and y['ackT'] < m['sendT']])
+            hi = min([len(e['log'])] + [off[j + 1] for j, y in enumerate(e['msgs'])
+                                        if j + 1 in off and y['sendT'] > m['ackT']])
+            if lo == hi:
+                st['exact_refusals'] += 1
         # overlapping publishes with the same expectation
         ms = [m for m in e['msgs'] if m['exp'] != -1]
         for i, a in enumerate(ms):
@@ -280,17 +310,18 @@ def run_server(rep, tier, seed, rng):
     # design check of the publish path
     for cfgname in (['MC_OccPublish.cfg', 'MC_OccPublish_small.cfg'] +
                     (['MC_OccPublish_thorough.cfg', 'MC_OccPublish_thorough2.cfg'] if thorough else [])):
-        res = core.tlc_check('MC_OccPublish.tla', cfgname, timeout=3000, coverage=thorough)
+        res = tlc_check('MC_OccPublish.tla', cfgname, timeout=3000, coverage=thorough)
         rep.add_design(cfgname[:-4], res)
     # design-level self-test: the broken loops must violate the C16 predicates in the model
-    killed = []
-    for mut in MUTS:
-        res = core.tlc_check('MC_OccPublish.tla', 'MC_OccPublish_mut_%s.cfg' % mut, timeout=600)
-        if res['violated']:
-            killed.append(mut)
-    rep.cov['design_mutants_killed'] = killed
-    if len(killed) != len(MUTS):
-        raise core.Inconclusive('design-level self-test: broken leader loops not all detected: %s' % killed)
+    if thorough:
+        killed = []
+        for mut in MUTS:
+            res = tlc_check('MC_OccPublish.tla', 'MC_OccPublish_mut_%s.cfg' % mut, timeout=600)
+            if res['violated']:
+                killed.append(mut)
+        rep.cov['design_mutants_killed'] = killed
+        if len(killed) != len(MUTS):
+            raise core.Inconclusive('design-level self-test: broken leader loops not all detected: %s' % killed)
     # rounds: TLC simulation of the publish path + seeded random waves + the ack-policy-NONE cases
     nsim, nrand = (1200, 1800) if thorough else (120, 200)
     sims = core.tlc_simulate('MC_OccPublish.tla', 'Sim_OccPublish.cfg', nsim, 45, seed, timeout=900)
@@ -311,7 +342,70 @@ def run_server(rep, tier, seed, rng):
     st = sv_stats(events)
     if died:
         core.log('server process died in round %s: %s' % died)
-    return {'rounds': rounds, 'stats': st, 'lines': tr['validated']}
+    return {'rounds': rounds, 'stats': st, 'lines': tr['validated'], 'events': events}
+
+
+# ------------------------------------------------------------------ self-test of the binding
+
+def selftest_corrupted(rep, cl_trace, sv_events, d):
+    """corrupt one recorded field and see TLC reject the trace (both levels); a corruption that is accepted means
+    the machinery decides nothing: inconclusive"""
+    out = {}
+    # commit log: an accepted conditional append is made to claim a different expectation
+    lines = core.read_ndjson(cl_trace)
+    pick = None
+    for i, e in enumerate(lines):
+        if (e['a'] == 'Append' and e['st']['cfg']['occ'] and e['obs']['err'] == '' and e['args'].get('recs')
+                and e['args']['recs'][0]['exp'] != -1):
+            pick = i
+            break
+    if pick is not None:
+        lo = max(j for j in range(pick + 1) if lines[j]['a'] == 'Open')
+        hi = next((j for j in range(pick + 1, len(lines)) if lines[j]['a'] == 'Open'), len(lines))
+        seg = json.loads(json.dumps(lines[lo:hi]))
+        seg[pick - lo]['args']['recs'][0]['exp'] += 1
+        f = os.path.join(d, 'corrupt-cl.ndjson')
+        with open(f, 'w') as fh:
+            for e in seg:
+                fh.write(json.dumps(e) + '\n')
+        res = core.tlc_trace('Trace_CommitLog.tla', 'Trace_CommitLog.cfg', f)
+        hit = [x for x in res['fails'] if x[0] == 'P' and x[3] == 'Append' and x[4] == 'step']
+        out['commitlog_expected_offset_changed'] = 'rejected' if hit else 'ACCEPTED'
+    # server: (i) an accepted conditional publish claims another expectation, (ii) a refused publish is put into
+    # the log, (iii) a success ack names another offset
+    rounds = [e for e in sv_events if e['a'] == 'Round' and e['cfg']['occ']]
+    cases = []     # (name, corrupted round, the check that must fail)
+    for e in rounds:
+        i = next((i for i, m in enumerate(e['msgs']) if m['res'] == 'ok' and m['exp'] != -1), None)
+        if i is not None:
+            ev = json.loads(json.dumps(e))
+            ev['msgs'][i]['exp'] += 1
+            cases.append(('expected_offset_changed', ev, 'C16_StoredAtExpected'))
+            ev = json.loads(json.dumps(e))
+            ev['msgs'][i]['off'] += 1
+            cases.append(('ack_offset_changed', ev, 'C16_AckOffset'))
+            break
+    for e in rounds:
+        i = next((i for i, m in enumerate(e['msgs']) if m['res'] == 'incorrect_offset'), None)
+        if i is not None:
+            ev = json.loads(json.dumps(e))
+            ev['log'].append({'off': len(ev['log']), 'id': i + 1})
+            cases.append(('refused_message_in_log', ev, 'C16_RejectNotStored'))
+            break
+    if cases:
+        f = os.path.join(d, 'corrupt-sv.ndjson')
+        with open(f, 'w') as fh:
+            fh.write(json.dumps({'t': 0, 'a': 'Open'}) + '\n')
+            for k, (name, ev, want) in enumerate(cases):
+                ev['t'] = k + 1
+                fh.write(json.dumps(ev) + '\n')
+        res = core.tlc_trace('Trace_OccPublish.tla', 'Trace_OccPublish.cfg', f)
+        for k, (name, ev, want) in enumerate(cases):
+            hit = [x for x in res['fails'] if x[0] == 'P' and x[1] == k + 1 and x[4] == want]
+            out['server_' + name] = 'rejected' if hit else 'ACCEPTED'
+    rep.cov['selftest_corrupted_trace'] = out
+    if not out or 'ACCEPTED' in out.values():
+        raise core.Inconclusive('self-test: a corrupted trace was accepted: %s' % out)
 
 
 # ------------------------------------------------------------------ entry
@@ -342,8 +436,11 @@ def run(rep, tier, seed, replay):
         rep.cov['rule'] = 'replay of a saved stimulus (a server round is executed 40 times: its schedule is free)'
         rep.cov['samples'] = behaviours[:1]
         return
-    cl = run_commitlog(rep, tier, seed, rng)
-    sv = run_server(rep, tier, seed, rng)
+    with core.scratch('c16keep') as keepdir:
+        cl = run_commitlog(rep, tier, seed, rng, keepdir)
+        sv = run_server(rep, tier, seed, rng)
+        if not rep.violations:
+            selftest_corrupted(rep, cl['trace'], sv['events'], keepdir)
     st = sv['stats']
     nt_rounds = [r for r in sv['rounds'] if r['id'] in set(st['nontrivial_ids'])]
     rep.cov['traces_validated_against_impl'] = len(cl['behaviours']) + st['rounds']
@@ -365,5 +462,6 @@ def run(rep, tier, seed, replay):
     rep.assumptions += ['one node, replication factor 1; one appender per commit log',
                         'a publisher\'s logical send/answer stamps are taken in one process (sound real-time order)',
                         'TLC 1.8.0 evaluates the TLA+ predicates correctly']
-    if st['timeouts'] and not rep.violations:
-        raise core.Inconclusive('%d publishes got no answer before the deadline' % st['timeouts'])
+    if (st['timeouts'] or st['aborted']) and not rep.violations:
+        raise core.Inconclusive('%d publishes got no answer before the deadline%s' % (
+            st['timeouts'], ' (remaining rounds not executed)' if st['aborted'] else ''))
